@@ -1,7 +1,11 @@
 //! C40 — the router hands each connection only to the handler for its protocol.
 //!
 //! raw case: `<regs> <setalpns> <filter> <offer>`
-//!   regs      `-` or `x,y,..`  ALPN letters registered with `RouterBuilder::accept`, in call
+//!   An ALPN name is an arbitrary byte string of 1..255 bytes, written `x<hex>`; the letters
+//!   `a`..`d` are shorthand for the ASCII names `/c40/a`..`/c40/d`. Names are never handled as
+//!   text: they are decoded to bytes, given to iroh as bytes, read back as bytes
+//!   (`Connection::alpn`) and printed to the model as `hex "…"`.
+//!   regs      `-` or `x,y,..`  ALPNs registered with `RouterBuilder::accept`, in call
 //!             order (handler id = position; a later registration of the same ALPN replaces
 //!             the earlier one)
 //!   setalpns  `-` or `x,y,..`  if given, `Endpoint::set_alpns` is called with exactly this list
@@ -26,19 +30,28 @@ use iroh::{
 const DONE_CODE: u32 = 99;
 const LETTERS: &[&str] = &["a", "b", "c", "d"];
 
-fn alpn_of(letter: &str) -> Vec<u8> {
-    format!("/c40/{letter}").into_bytes()
+/// raw token -> ALPN bytes
+fn alpn_of(tok: &str) -> Vec<u8> {
+    if LETTERS.contains(&tok) {
+        return format!("/c40/{tok}").into_bytes();
+    }
+    let h = tok.strip_prefix('x').expect("ALPN token: a..d or x<hex>");
+    let v = unhex(h);
+    assert!(!v.is_empty() && v.len() <= 255, "ALPN length 1..255");
+    v
 }
-fn letter_idx(l: &str) -> u64 {
-    LETTERS.iter().position(|x| *x == l).expect("letter") as u64
-}
-fn letter_of_alpn(a: &[u8]) -> Option<u64> {
-    let s = std::str::from_utf8(a).ok()?;
-    let l = s.strip_prefix("/c40/")?;
-    LETTERS.iter().position(|x| *x == l).map(|p| p as u64)
+/// ALPN bytes -> raw token
+fn tok_of(a: &[u8]) -> String {
+    for l in LETTERS {
+        if a == alpn_of(l) {
+            return l.to_string();
+        }
+    }
+    format!("x{}", hex(a))
 }
 
-type HLog = Arc<Mutex<Vec<(u64, Option<u64>)>>>;
+type Alpn = Vec<u8>;
+type HLog = Arc<Mutex<Vec<(u64, Alpn)>>>;
 
 #[derive(Debug, Clone)]
 struct H {
@@ -48,7 +61,7 @@ struct H {
 
 impl ProtocolHandler for H {
     async fn accept(&self, conn: Connection) -> Result<(), AcceptError> {
-        self.log.lock().unwrap().push((self.id, letter_of_alpn(conn.alpn())));
+        self.log.lock().unwrap().push((self.id, conn.alpn().to_vec()));
         let mut s = conn.open_uni().await?;
         s.write_all(&[self.id as u8]).await.map_err(AcceptError::from_err)?;
         s.finish()?;
@@ -78,16 +91,117 @@ fn list_parse(t: &str) -> Vec<String> {
     if t == "-" { vec![] } else { t.split(',').map(|s| s.to_string()).collect() }
 }
 
+/// what `String::from_utf8_lossy` makes of a name (every invalid sequence -> EF BF BD)
+fn lossy(v: &[u8]) -> Vec<u8> {
+    String::from_utf8_lossy(v).as_bytes().to_vec()
+}
+
+/// byte strings that are not valid UTF-8: lone continuation / start bytes, truncated
+/// sequences, overlong and surrogate encodings, 0xfe/0xff, embedded in ASCII or not
+const NON_UTF8: &[&[u8]] = &[
+    &[0xff],
+    &[0xff, 0x61],
+    &[0x80],
+    &[0x2f, 0x63, 0x34, 0x30, 0x2f, 0x80],
+    &[0xc3, 0x28],
+    &[0xc3],
+    &[0xe2, 0x82],
+    &[0xf0, 0x9f, 0x92],
+    &[0xed, 0xa0, 0x80],
+    &[0xc0, 0xaf],
+    &[0x61, 0xfe, 0xff, 0x62],
+    &[0x00, 0x80, 0x00],
+];
+
+/// Four ALPN names of one designed family; the case's lists draw from them.
+fn pool(rng: &mut Rng) -> Vec<Alpn> {
+    match rng.below(9) {
+        // plain ASCII
+        0 => LETTERS.iter().map(|l| alpn_of(l)).collect(),
+        // non-UTF-8 names together with their U+FFFD renderings
+        1 | 2 => {
+            let x = rng.pick(NON_UTF8).to_vec();
+            let y = rng.pick(NON_UTF8).to_vec();
+            vec![x.clone(), lossy(&x), y.clone(), lossy(&y)]
+        }
+        // names differing only in one byte >= 0x80
+        3 => {
+            let n = rng.range(1, 6) as usize;
+            let base = rng.bytes(n);
+            let at = rng.below(n as u64) as usize;
+            [0x80u8, 0x81, 0xfe, 0xff]
+                .iter()
+                .map(|b| {
+                    let mut v = base.clone();
+                    v[at] = *b;
+                    v
+                })
+                .collect()
+        }
+        // a name, two extensions of it and a proper prefix
+        4 => {
+            let n = rng.range(2, 6) as usize;
+            let base = if rng.chance(1, 2) { rng.bytes(n) } else { b"/c40/a".to_vec() };
+            let mut e1 = base.clone();
+            e1.push(rng.below(256) as u8);
+            let mut e2 = e1.clone();
+            e2.push(rng.below(256) as u8);
+            vec![base.clone(), e1, e2, base[..base.len() - 1].to_vec()]
+        }
+        // maximal length (255 bytes): differing in the last byte, in the first byte, and the
+        // 254-byte prefix
+        5 => {
+            let m = fill(255, rng.next_u64());
+            let mut last = m.clone();
+            last[254] ^= 1;
+            let mut first = m.clone();
+            first[0] ^= 0x80;
+            vec![m.clone(), last, first, m[..254].to_vec()]
+        }
+        // arbitrary bytes, 1..8 long
+        6 => (0..4)
+            .map(|_| {
+                let n = rng.range(1, 8) as usize;
+                rng.bytes(n)
+            })
+            .collect(),
+        // valid multi-byte UTF-8 next to invalid look-alikes: U+FFFD itself, its truncation,
+        // precomposed / decomposed e-acute
+        7 => vec![vec![0xef, 0xbf, 0xbd], vec![0xef, 0xbf], vec![0xc3, 0xa9], vec![0x65, 0xcc, 0x81]],
+        // ASCII mixed with a binary name and its rendering
+        _ => {
+            let x = rng.pick(NON_UTF8).to_vec();
+            vec![alpn_of("a"), alpn_of("b"), x.clone(), lossy(&x)]
+        }
+    }
+}
+
 fn generate(rng: &mut Rng, i: u64, _n: u64) -> String {
-    let pick_list = |rng: &mut Rng, lo: u64, hi: u64| -> Vec<&str> {
+    let names = pool(rng);
+    let pick_list = |rng: &mut Rng, lo: u64, hi: u64| -> Vec<Alpn> {
         let n = rng.range(lo, hi);
-        (0..n).map(|_| *rng.pick(LETTERS)).collect()
+        (0..n).map(|_| rng.pick(&names).clone()).collect()
     };
-    let regs = if rng.chance(1, 12) { vec![] } else { pick_list(rng, 1, 3) };
-    let setalpns: Option<Vec<&str>> = if rng.chance(1, 4) {
+    let mut regs = if rng.chance(1, 12) { vec![] } else { pick_list(rng, 1, 3) };
+    let mut offer = pick_list(rng, 1, 3);
+    // one case in four: the dialer asks for exactly one registered protocol while the
+    // registry also holds that name's neighbour in the pool (its U+FFFD rendering, the name
+    // differing in one high byte, its prefix / extension)
+    if rng.chance(1, 4) {
+        let k = rng.below(2) as usize * 2;
+        regs = vec![names[k].clone(), names[k + 1].clone()];
+        if rng.chance(1, 2) {
+            regs.reverse();
+        }
+        if rng.chance(1, 4) {
+            regs.push(names[k].clone());
+        }
+        offer = vec![names[k + rng.below(2) as usize].clone()];
+    }
+    let setalpns: Option<Vec<Alpn>> = if rng.chance(1, 4) {
         // registered ones plus something unregistered, shuffled a little
-        let mut v: Vec<&str> = regs.clone();
-        v.push(*rng.pick(LETTERS));
+        let mut v: Vec<Alpn> = regs.clone();
+        v.push(rng.pick(&names).clone());
         if rng.chance(1, 2) {
             v.reverse();
         }
@@ -104,17 +218,18 @@ fn generate(rng: &mut Rng, i: u64, _n: u64) -> String {
         let v2 = if v1 == 'I' && v2 == 'I' { 'A' } else { v2 };
         format!("{v1}{v2}")
     };
-    let offer = pick_list(rng, 1, 3);
-    let j = |v: &[&str]| if v.is_empty() { "-".to_string() } else { v.join(",") };
+    let j = |v: &[Alpn]| {
+        if v.is_empty() { "-".to_string() } else { v.iter().map(|a| tok_of(a)).collect::<Vec<_>>().join(",") }
+    };
     format!("{} {} {filter} {}", j(&regs), setalpns.as_deref().map_or("-".to_string(), j), j(&offer))
 }
 
 #[derive(Debug, Clone, PartialEq)]
 enum Dial {
-    /// greeted by handler `id`; negotiated ALPN letter
-    Greeted(u64, Option<u64>),
+    /// greeted by handler `id`; negotiated ALPN
+    Greeted(u64, Alpn),
     /// handshake completed (negotiated ALPN), then the connection was dropped without a handler
-    Dropped(Option<u64>),
+    Dropped(Alpn),
     Refused,
     TimedOut,
     Handshake,
@@ -128,7 +243,7 @@ async fn run_case(
     setalpns: Option<&[String]>,
     filter: Option<(char, char)>,
     offer: &[String],
-) -> (Vec<bool>, Vec<(u64, Option<u64>)>, Dial) {
+) -> (Vec<bool>, Vec<(u64, Alpn)>, Dial) {
     let hlog: HLog = Default::default();
     let flog: Arc<Mutex<Vec<bool>>> = Default::default();
     let ep = Endpoint::builder(presets::Minimal)
@@ -172,7 +287,7 @@ async fn run_case(
                 if s.contains("refused") { Dial::Refused } else { Dial::Handshake }
             }
             Ok(Ok(conn)) => {
-                let neg = letter_of_alpn(conn.alpn());
+                let neg = conn.alpn().to_vec();
                 let r = tokio::time::timeout(Duration::from_secs(15), async {
                     let mut s = conn.accept_uni().await?;
                     let mut b = [0u8; 1];
@@ -210,7 +325,7 @@ fn run(raw: &str) -> (String, String) {
         Some((c.next().unwrap(), c.next().unwrap()))
     };
     let offer = list_parse(t[3]);
-    let ll = |v: &[String]| coq_list(v.iter(), |l| letter_idx(l).to_string());
+    let ll = |v: &[String]| coq_list(v.iter(), |l| coq_hex(&alpn_of(l)));
     let coq_in = format!(
         "(C40.mkIn {} {} {} {})",
         ll(&regs),
@@ -235,7 +350,7 @@ fn run(raw: &str) -> (String, String) {
             }
         }
     });
-    let on = |o: &Option<u64>| coq_opt(*o, |x| x.to_string());
+    let on = |a: &Alpn| format!("(Some {})", coq_hex(a));
     let out = match &r {
         Caught::Value((fl, hl, d)) => {
             let d = match d {
